@@ -8,7 +8,10 @@
 //! `Err(())` means the real code panicked (the harness prints `panic`).
 use std::panic::{catch_unwind, AssertUnwindSafe};
 
-use crate::app::attr::{AttrParseError, AttrProp, AttrSet, AttrValue, Attribute, FloatType, OwnedAttrValue, OwnedAttribute};
+use crate::app::attr::{
+    AttrParseError, AttrProp, AttrSet, AttrValue, Attribute, FloatType, OwnedAttrValue,
+    OwnedAttribute,
+};
 use crate::app::format::write::HeaderWriter;
 use crate::app::gen::prefixed::PrefixedVariation;
 use crate::app::gen::ranged::RangedVariation;
@@ -16,7 +19,9 @@ use crate::app::parse::options::ParseOptions;
 use crate::app::parse::parser::{HeaderCollection, HeaderDetails, ParsedFragment};
 use crate::app::{ControlField, FunctionCode, HeaderParseError, ObjectParseError, Timestamp};
 use crate::master::Headers;
-use crate::outstation::database::{AttrDefError, ClassZeroConfig, DatabaseHandle, EventBufferConfig};
+use crate::outstation::database::{
+    AttrDefError, ClassZeroConfig, DatabaseHandle, EventBufferConfig,
+};
 use scursor::WriteCursor;
 
 /// an attribute value as the ops file spells it (floats as raw bits)
@@ -81,7 +86,9 @@ fn obj_err(e: &ObjectParseError) -> String {
             let (g, var) = v.to_group_and_var();
             format!("invalidqualifier {g} {var} {}", q.as_u8())
         }
-        ObjectParseError::UnsupportedQualifierCode(q) => format!("unsupportedqualifier {}", q.as_u8()),
+        ObjectParseError::UnsupportedQualifierCode(q) => {
+            format!("unsupportedqualifier {}", q.as_u8())
+        }
         ObjectParseError::UnsupportedFreeFormatCount(n) => format!("freeformatcount {n}"),
         ObjectParseError::ZeroLengthOctetData => "zerolength".to_string(),
         ObjectParseError::BadAttribute(a) => format!("badattr {}", attr_err(a)),
@@ -102,7 +109,10 @@ fn value_str(v: &AttrValue) -> String {
         AttrValue::Dnp3Time(t) => format!("time {}", t.raw_value()),
         AttrValue::AttrList(list) => {
             // the library's own iterator over the list
-            let items: Vec<String> = list.iter().map(|i| format!("{}:{}", i.variation, i.properties.is_writable() as u8)).collect();
+            let items: Vec<String> = list
+                .iter()
+                .map(|i| format!("{}:{}", i.variation, i.properties.is_writable() as u8))
+                .collect();
             if items.is_empty() {
                 "list -".to_string()
             } else {
@@ -113,7 +123,12 @@ fn value_str(v: &AttrValue) -> String {
 }
 
 fn attr_line(q: u8, a: &Attribute) -> String {
-    format!("a {q} {} {} {}", a.set.value(), a.variation, value_str(&a.value))
+    format!(
+        "a {q} {} {} {}",
+        a.set.value(),
+        a.variation,
+        value_str(&a.value)
+    )
 }
 
 /// the canonical dump of the object headers of a parsed fragment:
@@ -131,12 +146,24 @@ fn dump_headers(objects: &Result<HeaderCollection, ObjectParseError>, out: &mut 
                 let (g, v) = h.variation.to_group_and_var();
                 let q = h.details.qualifier().as_u8();
                 let line = match &h.details {
-                    HeaderDetails::OneByteStartStop(_, _, RangedVariation::Group0(_, Some(a))) => attr_line(q, a),
-                    HeaderDetails::TwoByteStartStop(_, _, RangedVariation::Group0(_, Some(a))) => attr_line(q, a),
-                    HeaderDetails::OneByteCountAndPrefix(_, PrefixedVariation::Group0(a)) => attr_line(q, a),
-                    HeaderDetails::TwoByteCountAndPrefix(_, PrefixedVariation::Group0(a)) => attr_line(q, a),
-                    HeaderDetails::OneByteStartStop(s, e, _) if g == 0 => format!("r {v} {q} {s}..{e}"),
-                    HeaderDetails::TwoByteStartStop(s, e, _) if g == 0 => format!("r {v} {q} {s}..{e}"),
+                    HeaderDetails::OneByteStartStop(_, _, RangedVariation::Group0(_, Some(a))) => {
+                        attr_line(q, a)
+                    }
+                    HeaderDetails::TwoByteStartStop(_, _, RangedVariation::Group0(_, Some(a))) => {
+                        attr_line(q, a)
+                    }
+                    HeaderDetails::OneByteCountAndPrefix(_, PrefixedVariation::Group0(a)) => {
+                        attr_line(q, a)
+                    }
+                    HeaderDetails::TwoByteCountAndPrefix(_, PrefixedVariation::Group0(a)) => {
+                        attr_line(q, a)
+                    }
+                    HeaderDetails::OneByteStartStop(s, e, _) if g == 0 => {
+                        format!("r {v} {q} {s}..{e}")
+                    }
+                    HeaderDetails::TwoByteStartStop(s, e, _) if g == 0 => {
+                        format!("r {v} {q} {s}..{e}")
+                    }
                     HeaderDetails::AllObjects(_) if g == 0 => format!("r {v} {q} -"),
                     _ => format!("h {g} {v} {q}"),
                 };
@@ -152,14 +179,26 @@ fn dump_headers(objects: &Result<HeaderCollection, ObjectParseError>, out: &mut 
 pub fn parse_fragment(fragment: &[u8]) -> Vec<String> {
     let res = guard(|| {
         let mut out = Vec::new();
-        let options = ParseOptions { parse_zero_length_strings: false };
+        let options = ParseOptions {
+            parse_zero_length_strings: false,
+        };
         match ParsedFragment::parse(options, fragment) {
-            Err(HeaderParseError::InsufficientBytes) => out.push("err hdr insufficient".to_string()),
-            Err(HeaderParseError::UnknownFunction(seq, raw)) => out.push(format!("err hdr unknownfn {} {}", seq.value(), raw)),
+            Err(HeaderParseError::InsufficientBytes) => {
+                out.push("err hdr insufficient".to_string())
+            }
+            Err(HeaderParseError::UnknownFunction(seq, raw)) => {
+                out.push(format!("err hdr unknownfn {} {}", seq.value(), raw))
+            }
             Ok(frag) => {
                 dump_headers(&frag.objects, &mut out);
                 // Display of attribute values at full decode level: panic / no panic only
-                let shown = catch_unwind(AssertUnwindSafe(|| format!("{}", frag.display(crate::decode::AppDecodeLevel::ObjectValues)).len()));
+                let shown = catch_unwind(AssertUnwindSafe(|| {
+                    format!(
+                        "{}",
+                        frag.display(crate::decode::AppDecodeLevel::ObjectValues)
+                    )
+                    .len()
+                }));
                 if shown.is_err() {
                     out.push("display panic".to_string());
                 }
@@ -184,37 +223,68 @@ pub struct AttrProbe {
 
 impl AttrProbe {
     pub fn new() -> Self {
-        Self { handle: DatabaseHandle::new(None, ClassZeroConfig::default(), EventBufferConfig::no_events()) }
+        Self {
+            handle: DatabaseHandle::new(
+                None,
+                ClassZeroConfig::default(),
+                EventBufferConfig::no_events(),
+            ),
+        }
     }
 
     /// `Database::define_attr` through the public transaction API.
     /// Ok(Ok(())) defined | Ok(Err(text)) rejected (canonical error text) | Err(()) panic
-    pub fn define(&mut self, set: u8, var: u8, writable: bool, val: &Val) -> Result<Result<(), String>, ()> {
+    pub fn define(
+        &mut self,
+        set: u8,
+        var: u8,
+        writable: bool,
+        val: &Val,
+    ) -> Result<Result<(), String>, ()> {
         let value = match val.to_owned_value() {
             Some(v) => v,
             None => return Ok(Err("badspec".to_string())),
         };
-        let prop = if writable { AttrProp::writable() } else { AttrProp::default() };
+        let prop = if writable {
+            AttrProp::writable()
+        } else {
+            AttrProp::default()
+        };
         let attr = OwnedAttribute::new(AttrSet::new(set), var, value);
         guard(|| {
-            self.handle.transaction(|db| db.define_attr(prop, attr.clone())).map_err(|e| match e {
-                AttrDefError::AlreadyDefined => "already".to_string(),
-                AttrDefError::BadType(t) => format!("badtype {} {}", u8::from(t.expected), u8::from(t.actual)),
-                AttrDefError::ReservedVariation(v) => format!("reserved {v}"),
-                AttrDefError::NotWritable(s, v) => format!("notwritable {} {v}", s.value()),
-            })
+            self.handle
+                .transaction(|db| db.define_attr(prop, attr.clone()))
+                .map_err(|e| match e {
+                    AttrDefError::AlreadyDefined => "already".to_string(),
+                    AttrDefError::BadType(t) => {
+                        format!("badtype {} {}", u8::from(t.expected), u8::from(t.actual))
+                    }
+                    AttrDefError::ReservedVariation(v) => format!("reserved {v}"),
+                    AttrDefError::NotWritable(s, v) => format!("notwritable {} {v}", s.value()),
+                })
         })
     }
 
     /// the object-header octets of a READ request parsed by the real parser, then `DatabaseHandle::select`
     pub fn select(&mut self, object_headers: &[u8]) -> Result<SelectResult, ()> {
-        guard(|| match HeaderCollection::parse(ParseOptions { parse_zero_length_strings: false }, FunctionCode::Read, object_headers) {
-            Err(_) => SelectResult::ParseError,
-            Ok(headers) => {
-                if headers.iter().any(|h| h.variation.to_group_and_var().0 != 0) {
-                    SelectResult::NotGroup0
-                } else {
-                    SelectResult::Iin2(self.handle.select(&headers).value)
+        guard(|| {
+            match HeaderCollection::parse(
+                ParseOptions {
+                    parse_zero_length_strings: false,
+                },
+                FunctionCode::Read,
+                object_headers,
+            ) {
+                Err(_) => SelectResult::ParseError,
+                Ok(headers) => {
+                    if headers
+                        .iter()
+                        .any(|h| h.variation.to_group_and_var().0 != 0)
+                    {
+                        SelectResult::NotGroup0
+                    } else {
+                        SelectResult::Iin2(self.handle.select(&headers).value)
+                    }
                 }
             }
         })
@@ -235,36 +305,55 @@ impl AttrProbe {
     /// (`handle_write_attr` without the application callback): `can_write`, then `write`.
     /// One result per group-0 object: "ok" or the error kind; `None` = the request does not parse
     pub fn write_request(&mut self, object_headers: &[u8]) -> Result<Option<Vec<String>>, ()> {
-        guard(|| match HeaderCollection::parse(ParseOptions { parse_zero_length_strings: false }, FunctionCode::Write, object_headers) {
-            Err(_) => None,
-            Ok(headers) => {
-                let mut res = Vec::new();
-                for h in headers.iter() {
-                    let attr = match h.details {
-                        HeaderDetails::OneByteStartStop(_, _, RangedVariation::Group0(_, Some(a))) => a,
-                        HeaderDetails::TwoByteStartStop(_, _, RangedVariation::Group0(_, Some(a))) => a,
-                        _ => {
-                            res.push("skip".to_string());
-                            continue;
-                        }
-                    };
-                    let r = self.handle.transaction(|db| {
-                        let map = db.inner.get_attr_map();
-                        match map.can_write(attr) {
-                            Err(e) => Err(e),
-                            Ok(()) => map.write(attr),
-                        }
-                    });
-                    // `AttrError` lives in a private module: its variant name (Debug) is the canonical text
-                    res.push(match r {
-                        Ok(()) => "ok".to_string(),
-                        Err(e) => {
-                            let s = format!("{e:?}");
-                            s.split(|c: char| !c.is_ascii_alphanumeric()).next().unwrap_or("").to_string()
-                        }
-                    });
+        guard(|| {
+            match HeaderCollection::parse(
+                ParseOptions {
+                    parse_zero_length_strings: false,
+                },
+                FunctionCode::Write,
+                object_headers,
+            ) {
+                Err(_) => None,
+                Ok(headers) => {
+                    let mut res = Vec::new();
+                    for h in headers.iter() {
+                        let attr = match h.details {
+                            HeaderDetails::OneByteStartStop(
+                                _,
+                                _,
+                                RangedVariation::Group0(_, Some(a)),
+                            ) => a,
+                            HeaderDetails::TwoByteStartStop(
+                                _,
+                                _,
+                                RangedVariation::Group0(_, Some(a)),
+                            ) => a,
+                            _ => {
+                                res.push("skip".to_string());
+                                continue;
+                            }
+                        };
+                        let r = self.handle.transaction(|db| {
+                            let map = db.inner.get_attr_map();
+                            match map.can_write(attr) {
+                                Err(e) => Err(e),
+                                Ok(()) => map.write(attr),
+                            }
+                        });
+                        // `AttrError` lives in a private module: its variant name (Debug) is the canonical text
+                        res.push(match r {
+                            Ok(()) => "ok".to_string(),
+                            Err(e) => {
+                                let s = format!("{e:?}");
+                                s.split(|c: char| !c.is_ascii_alphanumeric())
+                                    .next()
+                                    .unwrap_or("")
+                                    .to_string()
+                            }
+                        });
+                    }
+                    Some(res)
                 }
-                Some(res)
             }
         })
     }
@@ -289,16 +378,20 @@ pub fn master_write(cap: usize, attrs: &[(u8, u8, Val)]) -> Result<Result<Vec<u8
         }
         let mut buf = vec![0u8; cap];
         let mut cursor = WriteCursor::new(&mut buf);
-        let mut writer: HeaderWriter = match crate::app::format::write::start_request(ControlField::from(0xC0), FunctionCode::Write, &mut cursor) {
+        let mut writer: HeaderWriter = match crate::app::format::write::start_request(
+            ControlField::from(0xC0),
+            FunctionCode::Write,
+            &mut cursor,
+        ) {
             Ok(w) => w,
             Err(_) => return Err("cursor".to_string()),
         };
         match headers.write(&mut writer) {
             Ok(()) => {}
             Err(crate::master::TaskError::WriteError) => return Err("cursor".to_string()),
-            Err(crate::master::TaskError::BadEncoding(crate::master::BadEncoding::Attribute(crate::app::attr::BadAttribute::BadLength(n)))) => {
-                return Err(format!("badattr {n}"))
-            }
+            Err(crate::master::TaskError::BadEncoding(crate::master::BadEncoding::Attribute(
+                crate::app::attr::BadAttribute::BadLength(n),
+            ))) => return Err(format!("badattr {n}")),
             Err(_) => return Err("other".to_string()),
         }
         drop(writer);
